@@ -31,9 +31,9 @@ fn parse_tier(s: &str) -> Tier {
 
 /// Everything that touches the interpreter runs on a thread with a large stack, so that the
 /// model's recursion and the interpreter's own recursion are bounded by budgets, not by luck.
-fn on_big_stack<F: FnOnce() + Send + 'static>(f: F) {
+fn on_big_stack<F: FnOnce() + Send + 'static>(stack: usize, f: F) {
     let h = std::thread::Builder::new()
-        .stack_size(1 << 30)
+        .stack_size(stack)
         .spawn(f)
         .expect("spawn big-stack thread");
     if h.join().is_err() {
@@ -93,7 +93,7 @@ fn worker(a: &[String]) {
         None => usage(),
     };
     outcome::install_quiet_panic_hook();
-    on_big_stack(move || {
+    on_big_stack(p.stack_bytes(), move || {
         (p.run)(&mut sh);
         sh.finish();
     });
@@ -119,7 +119,7 @@ fn replay(a: &[String]) {
     let tier = v["tier"].as_str().map(parse_tier).unwrap_or(Tier::Quick);
     let seed = v["seed"].as_u64().unwrap_or(0);
     outcome::install_quiet_panic_hook();
-    on_big_stack(move || {
+    on_big_stack(p.stack_bytes(), move || {
         let mut sh = Shard::new(&id, Cfg { tier, seed }, 0, 1);
         sh.verbose = true;
         sh.known.clear();
@@ -262,7 +262,9 @@ fn check(a: &[String]) {
             println!("  case: {}", serde_json::to_string(&v["case"]).unwrap_or_default().chars().take(400).collect::<String>());
             println!("VIOLATION property={id} replay={path}");
         }
-        println!("{} violating cases in total ({} distinct)", violations.len(), seen.len());
+        let all = format!("/verif/replays/{id}-{}-all.json", tier.name());
+        let _ = std::fs::write(&all, serde_json::to_string_pretty(&violations).unwrap());
+        println!("{} violating cases in total ({} distinct); complete list in {all}", violations.len(), seen.len());
         std::process::exit(1);
     }
     if !res.machinery.is_empty() || !res.complete {
@@ -281,7 +283,7 @@ fn check(a: &[String]) {
 
 fn selftest() {
     outcome::install_quiet_panic_hook();
-    on_big_stack(|| {
+    on_big_stack(1 << 30, || {
         let bad = props::c01::selftest_model();
         if bad > 0 {
             eprintln!("selftest: {bad} reference-model expectations failed");
